@@ -82,6 +82,9 @@ func Unlock(m *sync.Mutex) {
 			s.dropHeld(h)
 		}
 		iunlock(&s.mu)
+		if w := s.self(); w != nil {
+			w.unlocked = true
+		}
 	}
 	m.Unlock()
 }
